@@ -31,6 +31,9 @@ for d in sorted(os.listdir(base)):
     for pid, lines in alarms:
         for l in lines: print('      ', pid, l[:230])
 mp = os.path.join(base, 'MATRIX.json')
-old = json.load(open(mp)) if os.path.exists(mp) and only else {}
-old.update(res)
-json.dump(old, open(mp, 'w'), indent=1, sort_keys=True)
+import fcntl
+with open(mp + '.lock', 'w') as lk:      # several workers (one scratch worktree each) may finish at the same time
+    fcntl.flock(lk, fcntl.LOCK_EX)
+    old = json.load(open(mp)) if os.path.exists(mp) and only else {}
+    old.update(res)
+    json.dump(old, open(mp, 'w'), indent=1, sort_keys=True)
